@@ -150,16 +150,61 @@ def replay(path, harness):
     print("REPLAY", "STILL FAILS" if bad else "passes")
     return 1 if bad else 0
 
+def tb(v, d):
+    return ("1" if v else "0") if d else "X"
+
+
+def logic4(op, a, b):
+    """independent 4-state definition of the logic operations (python, not derived from the model)"""
+    def and4(x, y): return "0" if "0" in (x, y) else ("1" if x == y == "1" else "X")
+    def not4(x): return {"0": "1", "1": "0", "X": "X"}[x]
+    def or4(x, y): return not4(and4(not4(x), not4(y)))
+    def xor4(x, y): return "X" if "X" in (x, y) else ("1" if x != y else "0")
+    return {"AND": lambda: and4(a, b), "NAND": lambda: not4(and4(a, b)), "OR": lambda: or4(a, b), "NOR": lambda: not4(or4(a, b)),
+            "XOR": lambda: xor4(a, b), "EQ": lambda: not4(xor4(a, b)), "NOT": lambda: not4(a)}[op]()
+
+
+def logic_src_counterexamples():
+    """the source-regenerated theorems broke: enumerate the 7 x 16 plane combinations of the formulas the
+    translator reads from the CURRENT Node_Logic.cpp and compare with the 4-state definition"""
+    rc, out = V.run([sys.executable, str(V.VERIF / "translate" / "C08_logicplanes.py"), "--table", str(V.REPO)], timeout=60)
+    if rc != 0:
+        return []
+    bad = []
+    for r in json.loads(out):
+        a, b = tb(r["left"], r["leftDefined"]), tb(r["right"], r["rightDefined"])
+        got, want = tb(r["result"], r["resultDefined"]), logic4(r["op"], a, b)
+        # C08: a defined result must be the 4-state definition's value (which is the value every concretisation gives)
+        if got != want:
+            bad.append(dict(r, operand_a=a, operand_b=b, source_formula_result=got, four_state_definition=want,
+                            note="hidden VALUE-plane bit under an undefined operand: left=%d right=%d" % (r["left"], r["right"])))
+    return bad
+
+
 def main():
     tier = V.tier()
     rep = V.Report(CID)
     V.build_gatery()
     harness = V.build_harness("C03_node")
     res = V.check_properties(CID)
+    # S3: regenerate the plane formulas of Node_Logic::simulateEvaluate from the current source (fail closed)
+    gen = V.COQ / "Gatery" / "gen" / "LogicSrc.v"
+    with V.Lock("coq_C08_gen"):
+        trc, tout = V.run([sys.executable, str(V.VERIF / "translate" / "C08_logicplanes.py"), str(V.REPO), str(gen)], timeout=120)
+        if trc != 0:
+            for f in (V.COQ / "Gatery" / "gen").glob("LogicSrc.*"):
+                try: f.unlink()
+                except OSError: pass
+        res_src = V.check_properties(CID + "src")
     driver = V.build_model("C03")
     if "--build-only" in sys.argv: sys.exit(0)
     if "--replay" in sys.argv: sys.exit(replay(sys.argv[sys.argv.index("--replay") + 1], harness))
     rep.add_proof(res)
+    rep.add_proof(res_src, checker_cmd="translate/C08_logicplanes.py /repo coq/Gatery/gen/LogicSrc.v && make -C coq -k Gatery/Properties_C08.vo Gatery/Properties_C08src.vo  (coqc 8.16.1, full .vo build, Print Assumptions per theorem)")
+    rep.cov["source_regenerated"] = dict(translator="translate/C08_logicplanes.py", output="coq/Gatery/gen/LogicSrc.v", status=tout.strip()[:300],
+                                         theorems=res_src["obligations"], discharged=res_src["discharged"])
+    src_broken = (trc != 0) or not res_src["ok"]
+    src_cex = logic_src_counterexamples() if src_broken else []
     rnd = random.Random(V.seed() * 77 + 5)
 
     cases, ncorpus = gen_cases(tier, V.seed())
@@ -233,6 +278,15 @@ def main():
     ]
     import C08b
     C08b.run(rep)
+    if src_broken:
+        if src_cex:
+            rep.violation({"property": CID, "kind": "source formulas of Node_Logic::simulateEvaluate (regenerated by the translator) contradict the 4-state definition",
+                           "failing_inputs": src_cex[:8], "n": len(src_cex), "theorems_failed": res_src["failed"],
+                           "how_to_replay": "a Node_Logic of that operation, width 1, operand planes as given (VALUE bit under an undefined operand set through the state vector): see checks/C08.py direct mode with hidden-plane twins"},
+                          tag="logicsrc")
+        else:
+            rep.violation({"property": CID, "no_failing_input_found": True, "kind": "source-regenerated theorems no longer check",
+                           "translator": tout.strip()[:500], "theorems_failed": res_src["failed"], "log": res_src["log"][-1500:]}, nofail=True, tag="logicsrc")
     rep.finish()
 
 
